@@ -173,7 +173,7 @@ CLAIMED = {
             'interval functions are enclosures; every real kernel called with an explicit directed mode '
             'honours it at its final rounding on every path (found: loggamma negated after rounding, so '
             'iv.loggamma was inverted for x < 1.46 - repaired); the cos/sin outward perturbation has the '
-            'right shape; every x + eps shortcut of the real kernels perturbs towards the sign of the neglected term (found: mpf_log near 1 - repaired); conversions round each endpoint outward; a packed interval is never used after one of its unpacked endpoints was recomputed (C-R9).  NOT decided: choice of corner / '
+            'right shape; every x + eps shortcut of the real kernels perturbs towards the sign of the neglected term (found: mpf_log near 1 - repaired); no directed kernel rounds a weakly guarded undirected intermediate (found: mpf_atan2 - repaired); interval functions outside the audited endpoint-level set remain compositions of interval operations; conversions round each endpoint outward; a packed interval is never used after one of its unpacked endpoints was recomputed (C-R9).  NOT decided: choice of corner / '
             'monotonicity region (one seeded change of that kind is not detected) and the accuracy of the '
             'transcendental kernels inside their guard bits.',
             'Trusts the monotonicity table (sa/iv_dir.py), the reasoned operand exemptions '
@@ -188,6 +188,9 @@ CLAIMED = {
             'the real-axis-crossing case was repaired); the binary-operator machinery of iv.mpf/iv.mpc '
             'passes operands in the right (reflected) order to the paired kernels; a packed rectangle is never '
             'used after one of its unpacked endpoints was recomputed and before it is rebuilt (C-R9, '
+            'sa/stale_pack.py); mpi_overlap (excluded strip of gamma) is the intersection predicate on all 26 '
+            'endpoint orderings; rectangle functions outside the audited endpoint-level set stay compositions '
+            '(C-R13, catches the two seeded cosh rewrites); (
             'sa/stale_pack.py).  NOT decided: corner selection, the excluded region of gamma, value-level '
             'tightenings (seeded change C15-2 is of that kind and is not detected).',
             'Trusts C14\'s real interval functions and the monotonicity table.',
